@@ -47,6 +47,37 @@ def real_parse(src, parser=None):
         return "raw:" + type(e).__name__
 
 
+def _exact_value(v):
+    """kind and exact value of what was parsed / handed over: `int:1` is not `float:1.0`, `float:-0.0` is not `float:0.0`"""
+    if hasattr(v, "lineno") and hasattr(v, "value"):         # ExpressionNode, Argument, ListArgument
+        v = v.value
+    if isinstance(v, list):
+        return [_exact_value(x) for x in v]
+    if isinstance(v, dict):
+        return {"tuple": sorted([k, _exact_value(x)] for k, x in v.items())}
+    return "%s:%s" % (type(v).__name__, v if isinstance(v, str) else repr(v))
+
+
+def exact_parse(src, parser=None):
+    """[[result name, command name, [[argument name, value]]]] with kinds and signs kept (see render.exact), or the name of the exception"""
+    from mpilot.parser.parser import Parser
+    try:
+        tree = (parser or Parser()).parse(src)
+    except Exception as e:
+        return type(e).__name__
+    return [[c.result_name, c.command, [[a.name, _exact_value(a.value)] for a in c.arguments]] for c in tree.commands]
+
+
+def exact_load(src):
+    """the same for what Program.from_source hands to the commands"""
+    try:
+        prog = any_program().from_source(src, libraries=())
+    except Exception as e:
+        return type(e).__name__
+    asked = prog.__dict__.get("asked", [])
+    return [[rn, name, [[a.name, _exact_value(a)] for a in c.arguments]] for (rn, c), name in zip(prog.commands.items(), asked)]
+
+
 # ---- the same text through Program.from_source: what the commands are actually handed
 
 def _body(v):
